@@ -333,13 +333,13 @@ theorem answer_good (C : TQContract) (s : State) (timeout : Int) (adv : Nat) (a 
     show C04.run {} (_ :: s.trace).reverse = _
     rw [run_snoc _ m _ _ hm]; rfl
 
-theorem pollLoop_good (C : TQContract) (timeout : Int) : ∀ (q : List PollAns) (s : State), Good C s →
-    GoodPre C (pollLoop s timeout q) := by
+theorem pollLoop_good (C : TQContract) (wait : Option ((Int × Int) × Nat)) : ∀ (q : List PollAns) (timeout : Int) (s : State),
+    Good C s → GoodPre C (pollLoop s wait timeout q) := by
   intro q
   induction q with
-  | nil => intro s h; unfold pollLoop; exact answer_good C s timeout 0 [] [] h
+  | nil => intro timeout s h; unfold pollLoop; exact answer_good C s timeout 0 [] [] h
   | cons x rest ih =>
-    intro s h
+    intro timeout s h
     cases x with
     | ans adv a => unfold pollLoop; exact answer_good C s timeout adv a rest h
     | eintr adv =>
@@ -353,10 +353,10 @@ theorem pollLoop_good (C : TQContract) (timeout : Int) : ∀ (q : List PollAns) 
         rw [run_snoc _ m _ _ hm]; rfl
       split
       · exact good_rescan h1
-      · exact ih _ h1
+      · exact ih _ _ h1
 
 theorem netSelect_good (C : TQContract) (s : State) (tv : Option (Int × Int)) (h : Good C s) : Good C (netSelect s tv) := by
-  have := pollLoop_good C (selectTimeout tv) s.pollq s h
+  have := pollLoop_good C (waitStart s tv) s.pollq (selectTimeout tv) s h
   unfold netSelect
   exact this
 
